@@ -88,7 +88,7 @@ Observed(st, e, o) ==
        req |-> IF proc THEN Head(qAfterRecv) ELSE e.req,
        given |-> e.req, proc |-> proc, sid |-> e.sid,
        ret |-> o.ret, out |-> o.out, dead |-> {}, obsOK |-> TRUE,
-       paired |-> FALSE, fl |-> {}, out0 |-> NoOut, same0 |-> TRUE ]
+       paired |-> FALSE, fl |-> {}, out0 |-> NoOut, same0 |-> TRUE, reqs |-> <<>>, rets |-> <<>> ]
 
 Bounded(st) ==
   /\ st.cur <= MaxSid /\ st.ucur <= MaxU
